@@ -1,6 +1,6 @@
 -------------------------- MODULE ListingReports_MC --------------------------
 (* (M) The report operators of ListingReports.tla against what the manual says, on four small machines     *)
-(* (CONSTANT Mode selects one; the variables of the others stay put):                                       *)
+(* (CONSTANT Modes: the initial state picks one of them, the variables of the others stay put):                                       *)
 (*  "usage"  an assembler core with two segments (1 = CODE warns, 2 = a data segment does not): emit /      *)
 (*           reserve of 1..MaxLen units at the program counter, ORG to any address 0..MaxAddr (backwards    *)
 (*           too), SEGMENT, RetractWords of the units just written (RetractMode none / normal = nothing is  *)
@@ -9,22 +9,22 @@
 (*           down), so that the usage list is compared with the parsed code file: UsageEqualsImage.         *)
 (*  "xref"   symbols looked up in lines of files that are entered in any order, over several passes          *)
 (*  "sect"   SECTION / ENDSECTION nested <= MaxDepth deep over several passes                                *)
-(*  "page"   a listing of lines of any length 0..MaxLine with chapter breaks under PAGE L, W                 *)
+(*  "page"   a listing of lines with lengths from LineLens with chapter breaks under PAGE L, W                 *)
 EXTENDS ListingReports, TLC
-CONSTANTS Mode, MaxSteps,
+CONSTANTS Modes, StepsUsage, StepsXref, StepsSect, StepsPage,
           MaxAddr, MaxLen, Gran, RetractMode,          \* usage
           Keys, MainFile, IncFiles, MaxLineNo,                  \* xref
           SectNames, MaxDepth,                         \* sect
-          PageLens, PageWidths, MaxLine, HeaderLen, Fixed     \* page
+          PageLens, PageWidths, LineLens, HeaderLen, Fixed     \* page
 
 CW == INSTANCE CodeWriter WITH BufSize <- 3, MaxRecLen <- 4
 
-VARIABLES n,
+VARIABLES n, mode,
           seg, pc, use, occ, emitted, lastw, stale, cw, lastEmit, cellId,
           files, cur, refs, uses, pass,
           sl, path, opened,
           pg, forced
-vars == <<n, seg, pc, use, occ, emitted, lastw, stale, cw, lastEmit, cellId, files, cur, refs, uses, pass, sl, path, opened, pg, forced>>
+vars == <<n, mode, seg, pc, use, occ, emitted, lastw, stale, cw, lastEmit, cellId, files, cur, refs, uses, pass, sl, path, opened, pg, forced>>
 uvars == <<seg, pc, use, occ, emitted, lastw, stale, cw, lastEmit, cellId>>
 xvars == <<files, cur, refs, uses>>
 svars == <<sl, path, opened>>
@@ -33,13 +33,13 @@ pvars == <<pg, forced>>
 Segs == {1, 2}
 CPU == 1
 Init ==
-  /\ n = 0 /\ pass = 1
+  /\ n = 0 /\ pass = 1 /\ mode \in Modes
   /\ seg = 1 /\ pc = [s \in Segs |-> 0] /\ use = [s \in Segs |-> <<>>] /\ occ = [s \in Segs |-> {}]
   /\ emitted = [s \in Segs |-> {}] /\ lastw = [res |-> FALSE, inter |-> FALSE, ov |-> FALSE] /\ stale = FALSE
   /\ cw = CW!OpenFile(CPU, 1, Gran, 0) /\ lastEmit = 0 /\ cellId = 0
   /\ files = <<MainFile>> /\ cur = MainFile /\ refs = [k \in Keys |-> <<>>] /\ uses = <<>>
   /\ sl = Sect0 /\ path = <<>> /\ opened = {}
-  /\ IF Mode = "page" THEN \E L \in PageLens, W \in PageWidths : pg = NewPg(Pg0(L, W), HeaderLen, FALSE)
+  /\ IF mode = "page" THEN \E L \in PageLens, W \in PageWidths : pg = NewPg(Pg0(L, W), HeaderLen, FALSE)
      ELSE pg = Pg0(0, 0)
   /\ forced = {}
 
@@ -85,14 +85,14 @@ UsageNext == /\ \/ \E len \in 1..MaxLen : Emit(len) \/ Reserve(len) \/ Retract(l
 
 \* a retracted word is re-occupied by the statement that took it back, so an overlap judged by sets only counts
 \* addresses that are occupied now
-UsageSaysOccupied == Mode = "usage" => \A s \in Segs : SaysOccupied(UsageItems(use[s]), occ[s])
-WarnIffIntersect == Mode = "usage" => lastw.res = lastw.inter
+UsageSaysOccupied == mode = "usage" => \A s \in Segs : SaysOccupied(UsageItems(use[s]), occ[s])
+WarnIffIntersect == mode = "usage" => lastw.res = lastw.inter
 NoStaleIndex == ~stale
-ChunksApart == Mode = "usage" => \A s \in Segs : \A i, j \in 1..Len(use[s]) :
+ChunksApart == mode = "usage" => \A s \in Segs : \A i, j \in 1..Len(use[s]) :
                   i # j => ~Overlap(use[s][i].s, use[s][i].n, use[s][j].s, use[s][j].n)
 ImageAddrs(recs, s) == {x.addr : x \in {y \in CW!Image(recs) : y.seg = s}}
 UsageEqualsImage ==
-  Mode = "usage" =>
+  mode = "usage" =>
     LET p == CW!Parse(CW!CloseFile(cw, CPU, seg, Gran, pc[seg], <<>>)) IN
     /\ p.ok
     /\ \A s \in Segs : /\ ImageAddrs(p.recs, s) = {a * Gran + b : a \in emitted[s], b \in 0..(Gran - 1)}
@@ -110,8 +110,8 @@ XrefNext == /\ \/ \E f \in IncFiles \cup {MainFile} : EnterFile(f)
                \/ \E k \in Keys, l \in 1..MaxLineNo : Lookup(k, l)
                \/ NextPass
             /\ UNCHANGED <<uvars, svars, pvars>>
-CrossSaysUses == Mode = "xref" => \A k \in Keys : SaysUses(CrossLines(refs[k], Len(files)), uses, k)
-UnusedNotListed == Mode = "xref" => \A k \in Keys : (refs[k] = <<>>) = (k \notin UsedKeys(uses))
+CrossSaysUses == mode = "xref" => \A k \in Keys : SaysUses(CrossLines(refs[k], Len(files)), uses, k)
+UnusedNotListed == mode = "xref" => \A k \in Keys : (refs[k] = <<>>) = (k \notin UsedKeys(uses))
 
 \* ---- sections -------------------------------------------------------------------------------------------
 SEnter(nm) == /\ Len(path) < MaxDepth
@@ -123,20 +123,21 @@ SLeave == /\ path # <<>> /\ sl' = SectLeave(sl) /\ path' = SubSeq(path, 1, Len(p
 SPass == /\ path = <<>> /\ pass < 2 /\ pass' = pass + 1 /\ UNCHANGED <<sl, path, opened>>
 SectNext == /\ \/ \E nm \in SectNames : SEnter(nm) \/ SLeave \/ SPass
             /\ UNCHANGED <<uvars, xvars, pvars>>
-SectionListSaysNesting == Mode = "sect" => PathsOfLines(SectionLines(sl)) = opened
-MomIsPath == Mode = "sect" => SectPath(sl.list, sl.mom) = path /\ Len(sl.stk) = Len(path)
+SectionListSaysNesting == mode = "sect" => PathsOfLines(SectionLines(sl)) = opened
+MomIsPath == mode = "sect" => SectPath(sl.list, sl.mom) = path /\ Len(sl.stk) = Len(path)
 
 \* ---- pages ----------------------------------------------------------------------------------------------
 PageNo == Cardinality({i \in 1..Len(pg.out) : pg.out[i].ff}) + 1
 PLine(len) == pg' = (IF Fixed THEN WrLineFixed(pg, len, HeaderLen) ELSE WrLine(pg, len, HeaderLen)) /\ UNCHANGED forced
 PChapter == pg' = NewPg(pg, HeaderLen, TRUE) /\ forced' = forced \cup {PageNo}
-PageNext == /\ \/ \E len \in 0..MaxLine : PLine(len) \/ PChapter
+PageNext == /\ \/ \E len \in LineLens : PLine(len) \/ PChapter
             /\ UNCHANGED <<uvars, xvars, svars, pass>>
-LinesFit == Mode = "page" => WidthContract(pg.out, pg.W)
-PagesFull == Mode = "page" => LengthContract(BodyCounts(pg.out, 0, <<>>), forced, pg.L)
+LinesFit == mode = "page" => WidthContract(pg.out, pg.W)
+PagesFull == mode = "page" => LengthContract(BodyCounts(pg.out, 0, <<>>), forced, pg.L)
 
-Next == /\ n < MaxSteps /\ n' = n + 1
-        /\ CASE Mode = "usage" -> UsageNext [] Mode = "xref" -> XrefNext [] Mode = "sect" -> SectNext
-             [] Mode = "page" -> PageNext
+Limit == CASE mode = "usage" -> StepsUsage [] mode = "xref" -> StepsXref [] mode = "sect" -> StepsSect [] OTHER -> StepsPage
+Next == /\ n < Limit /\ n' = n + 1 /\ UNCHANGED mode
+        /\ CASE mode = "usage" -> UsageNext [] mode = "xref" -> XrefNext [] mode = "sect" -> SectNext
+             [] mode = "page" -> PageNext
 Spec == Init /\ [][Next]_vars
 =============================================================================
